@@ -60,7 +60,7 @@ Notation RC := RecentlyConnectedAddrTTL.
 Notation CN := ConnectedAddrTTL.
 Notation TMP := TempAddrTTL.
 
-Lemma key_ops_book cap s p kf b : fold_left (book_step cap) (key_ops id_of inline_key s p kf) b = b.
+Lemma key_ops_book cap maxu s p kf b : fold_left (book_step cap maxu) (key_ops id_of inline_key s p kf) b = b.
 Proof.
   unfold key_ops. destruct kf; try reflexivity. destruct (id_of k =? p); [|reflexivity].
   destruct (cur_key inline_key s p); reflexivity.
@@ -68,47 +68,47 @@ Qed.
 
 Definition raw_of (p : Z) (l : list waddr) : list raw := map (to_raw p) (filter has_transport l).
 
-Definition book_consumed (cap : Z) (b : abook) (p : Z) (addrs : list waddr) (ttl : Z) : abook :=
-  a_update (c_add cap (a_update (a_update b p RC TMP) p CN TMP) p (raw_of p addrs) ttl) p TMP 0.
+Definition book_consumed (cap maxu : Z) (b : abook) (p : Z) (addrs : list waddr) (ttl : Z) : abook :=
+  g_update maxu (gc_add cap maxu (g_update maxu (g_update maxu b p RC TMP) p CN TMP) p (raw_of p addrs) ttl) p TMP 0.
 
 Lemma consume_book s m c connected :
   ps_book (appl s (consume verify id_of inline_key s m c connected)) =
-  book_consumed (ps_pcap s) (ps_book s) (c_peer c) (consume_addrs verify id_of c m) (if connected then CN else RC).
+  book_consumed (ps_pcap s) (ps_maxu s) (ps_book s) (c_peer c) (consume_addrs verify id_of c m) (if connected then CN else RC).
 Proof.
   rewrite apply_ops_book. unfold consume. rewrite fold_left_app, key_ops_book. reflexivity.
 Qed.
 
-Definition book_disconnected (cap : Z) (b : abook) (p : Z) (order : list waddr) : abook :=
-  a_update (c_add cap (a_update b p CN TMP) p
+Definition book_disconnected (cap maxu : Z) (b : abook) (p : Z) (order : list waddr) : abook :=
+  g_update maxu (gc_add cap maxu (g_update maxu b p CN TMP) p
                   (raw_of p (firstn (Z.to_nat recentlyConnectedPeerMaxAddrs) order)) RC) p TMP 0.
 
 Lemma disconnected_book s c order :
-  ps_book (appl s (disconnected_ops c false order)) = book_disconnected (ps_pcap s) (ps_book s) (c_peer c) order.
+  ps_book (appl s (disconnected_ops c false order)) = book_disconnected (ps_pcap s) (ps_maxu s) (ps_book s) (c_peer c) order.
 Proof. rewrite apply_ops_book. reflexivity. Qed.
 
 (* ---- classes after consumeMessage ------------------------------------------------------ *)
-Lemma consumed_mid_nohi b p : pall p (fun t => is_hi t = false) (a_update (a_update b p RC TMP) p CN TMP).
+Lemma consumed_mid_nohi maxu b p : pall p (fun t => is_hi t = false) (g_update maxu (g_update maxu b p RC TMP) p CN TMP).
 Proof.
   pose proof ttl_order as O.
-  assert (H1 : pall p (fun t => t <> RC) (a_update (a_update b p RC TMP) p CN TMP)).
-  { apply upd_preserve; [lia|]. apply upd_establish. lia. }
-  assert (H2 : pall p (fun t => t <> CN) (a_update (a_update b p RC TMP) p CN TMP)).
-  { apply upd_establish. lia. }
+  assert (H1 : pall p (fun t => t <> RC) (g_update maxu (g_update maxu b p RC TMP) p CN TMP)).
+  { apply gupd_preserve; [lia|]. apply gupd_establish. lia. }
+  assert (H2 : pall p (fun t => t <> CN) (g_update maxu (g_update maxu b p RC TMP) p CN TMP)).
+  { apply gupd_establish. lia. }
   intros e He Hp. apply is_hi_false; [now apply H1|now apply H2].
 Qed.
 
 Definition Qp (p : Z) (f : Z -> bool) (e : aent) : bool := (ep e =? p) && f (ettl e).
 
-Lemma consumed_cap cap b p addrs ttl : Z.of_nat (length addrs) <= connectedPeerMaxAddrs ->
-  Z.of_nat (length (filter (Qp p is_hi) (a_ents (book_consumed cap b p addrs ttl)))) <= connectedPeerMaxAddrs.
+Lemma consumed_cap cap maxu b p addrs ttl : Z.of_nat (length addrs) <= connectedPeerMaxAddrs ->
+  Z.of_nat (length (filter (Qp p is_hi) (a_ents (book_consumed cap maxu b p addrs ttl)))) <= connectedPeerMaxAddrs.
 Proof.
   intros Hl. unfold book_consumed.
-  set (b2 := a_update (a_update b p RC TMP) p CN TMP).
-  pose proof (pall_count_zero p is_hi b2 (consumed_mid_nohi b p)) as Z0. fold (Qp p is_hi) in Z0.
-  pose proof (c_add_count (Qp p is_hi) cap b2 p (raw_of p addrs) ttl) as H3. rewrite Z0 in H3. cbn [length] in H3.
-  set (b3 := c_add cap b2 p (raw_of p addrs) ttl) in *.
-  assert (H4 : (length (filter (Qp p is_hi) (a_ents (a_update b3 p TMP 0))) <= length (filter (Qp p is_hi) (a_ents b3)))%nat).
-  { apply a_update_count. intros e. unfold upd_fun, Qp.
+  set (b2 := g_update maxu (g_update maxu b p RC TMP) p CN TMP).
+  pose proof (pall_count_zero p is_hi b2 (consumed_mid_nohi maxu b p)) as Z0. fold (Qp p is_hi) in Z0.
+  pose proof (gc_add_count (Qp p is_hi) cap maxu b2 p (raw_of p addrs) ttl) as H3. rewrite Z0 in H3. cbn [length] in H3.
+  set (b3 := gc_add cap maxu b2 p (raw_of p addrs) ttl) in *.
+  assert (H4 : (length (filter (Qp p is_hi) (a_ents (g_update maxu b3 p TMP 0))) <= length (filter (Qp p is_hi) (a_ents b3)))%nat).
+  { apply g_update_count. intros e. unfold upd_fun, Qp.
     destruct ((ep e =? p) && (ettl e =? TMP)); [|trivial]. cbn [ep ettl].
     assert (is_hi 0 = false) by reflexivity. rewrite H. rewrite andb_false_r. discriminate. }
   assert (length (raw_of p addrs) <= length addrs)%nat.
@@ -116,44 +116,44 @@ Proof.
   lia.
 Qed.
 
-Lemma consumed_source cap b p addrs ttl e :
-  In e (a_ents (book_consumed cap b p addrs ttl)) -> ep e = p -> is_hi (ettl e) = true ->
+Lemma consumed_source cap maxu b p addrs ttl e :
+  In e (a_ents (book_consumed cap maxu b p addrs ttl)) -> ep e = p -> is_hi (ettl e) = true ->
   exists w, In w addrs /\ w_id w = ea e /\ (w_sfx w = 0 \/ w_sfx w = p).
 Proof.
-  intros He Hp Hh. unfold book_consumed in He. apply a_update_in in He. destruct He as [He|He].
+  intros He Hp Hh. unfold book_consumed in He. apply g_update_in in He. destruct He as [He|He].
   2:{ rewrite He in Hh. discriminate. }
-  apply c_add_in in He. destruct He as [He|[_ He]].
-  - rewrite (consumed_mid_nohi b p e He Hp) in Hh. discriminate.
+  apply gc_add_in in He. destruct He as [He|[_ He]].
+  - rewrite (consumed_mid_nohi maxu b p e He Hp) in Hh. discriminate.
   - now apply clean_in in He.
 Qed.
 
-Lemma consumed_noconn cap b p addrs : pall p (fun t => t <> CN) (book_consumed cap b p addrs RC).
+Lemma consumed_noconn cap maxu b p addrs : pall p (fun t => t <> CN) (book_consumed cap maxu b p addrs RC).
 Proof.
   pose proof ttl_order as O. unfold book_consumed.
-  apply upd_preserve; [lia|]. apply cadd_preserve; [intros t Ht; lia|lia|]. apply upd_establish. lia.
+  apply gupd_preserve; [lia|]. apply gcadd_preserve; [intros t Ht; lia|lia|]. apply gupd_establish. lia.
 Qed.
 
 (* ---- classes after the last Disconnected -------------------------------------------------- *)
-Lemma disconnected_noconn cap b p order : pall p (fun t => t <> CN) (book_disconnected cap b p order).
+Lemma disconnected_noconn cap maxu b p order : pall p (fun t => t <> CN) (book_disconnected cap maxu b p order).
 Proof.
   pose proof ttl_order as O. unfold book_disconnected.
-  apply upd_preserve; [lia|]. apply cadd_preserve; [intros t Ht; lia|lia|]. apply upd_establish. lia.
+  apply gupd_preserve; [lia|]. apply gcadd_preserve; [intros t Ht; lia|lia|]. apply gupd_establish. lia.
 Qed.
 
-Lemma disconnected_recent cap b p order :
-  Z.of_nat (length (filter (Qp p is_rc) (a_ents (book_disconnected cap b p order)))) <=
+Lemma disconnected_recent cap maxu b p order :
+  Z.of_nat (length (filter (Qp p is_rc) (a_ents (book_disconnected cap maxu b p order)))) <=
   Z.of_nat (length (filter (Qp p is_rc) (a_ents b))) + recentlyConnectedPeerMaxAddrs.
 Proof.
   pose proof ttl_order as O. unfold book_disconnected.
   set (sel := firstn (Z.to_nat recentlyConnectedPeerMaxAddrs) order).
-  set (b1 := a_update b p CN TMP). set (b2 := c_add cap b1 p (raw_of p sel) RC).
+  set (b1 := g_update maxu b p CN TMP). set (b2 := gc_add cap maxu b1 p (raw_of p sel) RC).
   assert (H1 : (length (filter (Qp p is_rc) (a_ents b1)) <= length (filter (Qp p is_rc) (a_ents b)))%nat).
-  { apply a_update_count. intros e. unfold upd_fun, Qp. destruct ((ep e =? p) && (ettl e =? CN)); [|trivial].
+  { apply g_update_count. intros e. unfold upd_fun, Qp. destruct ((ep e =? p) && (ettl e =? CN)); [|trivial].
     cbn [ep ettl]. replace (is_rc TMP) with false by (symmetry; apply Z.eqb_neq; lia).
     rewrite andb_false_r. discriminate. }
-  pose proof (c_add_count (Qp p is_rc) cap b1 p (raw_of p sel) RC) as H2. fold b2 in H2.
-  assert (H3 : (length (filter (Qp p is_rc) (a_ents (a_update b2 p TMP 0))) <= length (filter (Qp p is_rc) (a_ents b2)))%nat).
-  { apply a_update_count. intros e. unfold upd_fun, Qp. destruct ((ep e =? p) && (ettl e =? TMP)); [|trivial].
+  pose proof (gc_add_count (Qp p is_rc) cap maxu b1 p (raw_of p sel) RC) as H2. fold b2 in H2.
+  assert (H3 : (length (filter (Qp p is_rc) (a_ents (g_update maxu b2 p TMP 0))) <= length (filter (Qp p is_rc) (a_ents b2)))%nat).
+  { apply g_update_count. intros e. unfold upd_fun, Qp. destruct ((ep e =? p) && (ettl e =? TMP)); [|trivial].
     cbn [ep ettl]. replace (is_rc 0) with false by reflexivity. rewrite andb_false_r. discriminate. }
   assert (Z.of_nat (length (raw_of p sel)) <= recentlyConnectedPeerMaxAddrs).
   { unfold raw_of, sel. rewrite map_length.
@@ -163,28 +163,28 @@ Proof.
   lia.
 Qed.
 
-Lemma disconnected_fallback cap b p order :
-  (length (filter (Qp p (fun t => (CN <=? t)%Z)) (a_ents (book_disconnected cap b p order))) <=
+Lemma disconnected_fallback cap maxu b p order :
+  (length (filter (Qp p (fun t => (CN <=? t)%Z)) (a_ents (book_disconnected cap maxu b p order))) <=
    length (filter (Qp p (fun t => (CN <? t)%Z)) (a_ents b)))%nat.
 Proof.
   pose proof ttl_order as O. unfold book_disconnected.
   set (sel := firstn (Z.to_nat recentlyConnectedPeerMaxAddrs) order).
-  set (b1 := a_update b p CN TMP). set (b2 := c_add cap b1 p (raw_of p sel) RC).
+  set (b1 := g_update maxu b p CN TMP). set (b2 := gc_add cap maxu b1 p (raw_of p sel) RC).
   set (Qge := Qp p (fun t => CN <=? t)).
   assert (H1 : (length (filter Qge (a_ents b1)) <= length (filter (Qp p (fun t => (CN <? t)%Z)) (a_ents b)))%nat).
-  { apply a_update_count. intros e. unfold upd_fun, Qge, Qp.
+  { apply g_update_count. intros e. unfold upd_fun, Qge, Qp.
     destruct (ep e =? p) eqn:Ep; cbn [andb]; [|rewrite Ep; discriminate].
     destruct (ettl e =? CN) eqn:Et; cbn [ep ettl].
     - rewrite Ep. cbn [andb]. intros H. apply Z.leb_le in H. lia.
     - rewrite Ep. cbn [andb]. intros H. apply Z.leb_le in H. apply Z.eqb_neq in Et. apply Z.ltb_lt. lia. }
   assert (H2 : (length (filter Qge (a_ents b2)) <= length (filter Qge (a_ents b1)))%nat).
-  { apply c_add_count_same.
+  { apply gc_add_count_same.
     - intros a exp. unfold Qge, Qp. cbn [ep ettl]. replace (CN <=? RC) with false by (symmetry; apply Z.leb_gt; lia).
       apply andb_false_r.
     - intros a exp e0 K. unfold Qge, Qp. cbn [ep ettl]. unfold key_is in K. apply andb_true_iff in K.
       destruct K as [K _]. rewrite K, Z.eqb_refl. cbn [andb]. intros H. apply Z.leb_le in H. apply Z.leb_le. lia. }
-  assert (H3 : (length (filter Qge (a_ents (a_update b2 p TMP 0))) <= length (filter Qge (a_ents b2)))%nat).
-  { apply a_update_count. intros e. unfold upd_fun, Qge, Qp. destruct ((ep e =? p) && (ettl e =? TMP)); [|trivial].
+  assert (H3 : (length (filter Qge (a_ents (g_update maxu b2 p TMP 0))) <= length (filter Qge (a_ents b2)))%nat).
+  { apply g_update_count. intros e. unfold upd_fun, Qge, Qp. destruct ((ep e =? p) && (ettl e =? TMP)); [|trivial].
     cbn [ep ettl]. replace (CN <=? 0) with false by reflexivity. rewrite andb_false_r. discriminate. }
   lia.
 Qed.
@@ -200,39 +200,39 @@ Proof.
   unfold unconn_of in H. apply andb_true_iff in H. tauto.
 Qed.
 
-Lemma update_pcount s p q old new : pcount p (a_ents (a_update s q old new)) <= pcount p (a_ents s).
+Lemma update_pcount maxu s p q old new : pcount p (a_ents (g_update maxu s q old new)) <= pcount p (a_ents s).
 Proof.
-  unfold pcount, pents. apply Nat2Z.inj_le. apply a_update_count. intros e. now rewrite upd_fun_ep.
+  unfold pcount, pents. apply Nat2Z.inj_le. apply g_update_count. intros e. now rewrite upd_fun_ep.
 Qed.
 
-Lemma update_tmp0_ucount s p : ucount p (a_ents (a_update s p TempAddrTTL 0)) <= ucount p (a_ents s).
+Lemma update_tmp0_ucount maxu s p : ucount p (a_ents (g_update maxu s p TempAddrTTL 0)) <= ucount p (a_ents s).
 Proof.
-  pose proof ttl_order as O. unfold ucount. apply Nat2Z.inj_le. apply a_update_count. intros e. unfold upd_fun.
+  pose proof ttl_order as O. unfold ucount. apply Nat2Z.inj_le. apply g_update_count. intros e. unfold upd_fun.
   destruct ((ep e =? p) && (ettl e =? TempAddrTTL)) eqn:C; [|trivial]. intros _.
   apply andb_true_iff in C. destruct C as [C1 C2]. apply Z.eqb_eq in C2. unfold unconn_of, is_unconn.
   rewrite C1, C2. cbn [andb]. apply Z.ltb_lt. lia.
 Qed.
 
-Lemma consumed_bookcap cap b p addrs ttl : 0 < cap ->
-  ucount p (a_ents (book_consumed cap b p addrs ttl)) <= Z.max cap (pcount p (a_ents b)).
+Lemma consumed_bookcap cap maxu b p addrs ttl : 0 < cap ->
+  ucount p (a_ents (book_consumed cap maxu b p addrs ttl)) <= Z.max cap (pcount p (a_ents b)).
 Proof.
-  intros Hc. unfold book_consumed. set (b2 := a_update (a_update b p RecentlyConnectedAddrTTL TempAddrTTL) p ConnectedAddrTTL TempAddrTTL).
-  pose proof (update_tmp0_ucount (c_add cap b2 p (raw_of p addrs) ttl) p).
-  pose proof (c_add_ucount cap b2 p (raw_of p addrs) ttl Hc).
+  intros Hc. unfold book_consumed. set (b2 := g_update maxu (g_update maxu b p RecentlyConnectedAddrTTL TempAddrTTL) p ConnectedAddrTTL TempAddrTTL).
+  pose proof (update_tmp0_ucount maxu (gc_add cap maxu b2 p (raw_of p addrs) ttl) p).
+  pose proof (gc_add_ucount cap maxu b2 p (raw_of p addrs) ttl Hc).
   pose proof (ucount_le_pcount p (a_ents b2)).
-  pose proof (update_pcount (a_update b p RecentlyConnectedAddrTTL TempAddrTTL) p p ConnectedAddrTTL TempAddrTTL). fold b2 in H2.
-  pose proof (update_pcount b p p RecentlyConnectedAddrTTL TempAddrTTL). lia.
+  pose proof (update_pcount maxu (g_update maxu b p RecentlyConnectedAddrTTL TempAddrTTL) p p ConnectedAddrTTL TempAddrTTL). fold b2 in H2.
+  pose proof (update_pcount maxu b p p RecentlyConnectedAddrTTL TempAddrTTL). lia.
 Qed.
 
-Lemma disconnected_bookcap cap b p order : 0 < cap ->
-  ucount p (a_ents (book_disconnected cap b p order)) <= Z.max cap (pcount p (a_ents b)).
+Lemma disconnected_bookcap cap maxu b p order : 0 < cap ->
+  ucount p (a_ents (book_disconnected cap maxu b p order)) <= Z.max cap (pcount p (a_ents b)).
 Proof.
   intros Hc. unfold book_disconnected.
-  set (sel := firstn (Z.to_nat recentlyConnectedPeerMaxAddrs) order). set (b1 := a_update b p ConnectedAddrTTL TempAddrTTL).
-  pose proof (update_tmp0_ucount (c_add cap b1 p (raw_of p sel) RecentlyConnectedAddrTTL) p).
-  pose proof (c_add_ucount cap b1 p (raw_of p sel) RecentlyConnectedAddrTTL Hc).
+  set (sel := firstn (Z.to_nat recentlyConnectedPeerMaxAddrs) order). set (b1 := g_update maxu b p ConnectedAddrTTL TempAddrTTL).
+  pose proof (update_tmp0_ucount maxu (gc_add cap maxu b1 p (raw_of p sel) RecentlyConnectedAddrTTL) p).
+  pose proof (gc_add_ucount cap maxu b1 p (raw_of p sel) RecentlyConnectedAddrTTL Hc).
   pose proof (ucount_le_pcount p (a_ents b1)).
-  pose proof (update_pcount b p p ConnectedAddrTTL TempAddrTTL). fold b1 in H2. lia.
+  pose proof (update_pcount maxu b p p ConnectedAddrTTL TempAddrTTL). fold b1 in H2. lia.
 Qed.
 
 
